@@ -212,6 +212,15 @@ def run_case(case, ctx):
   if cond > mp.mpf("1e10"):
     ctx.count("ill_conditioned_skipped")
     return
+  if node["kind"] == "exp_spline":
+    # exp(poly)+C needs positive end values; the documented trick shifts non-positive ones up by 1 - min(V): a shift
+    # of magnitude >= 2^52 swallows the "1" in double arithmetic (log(0)), i.e. such end values are outside the range
+    # in which the exponential spline is conditioned at all
+    ends = [M.value(node["start"], R.F(node["rd"])), M.value(node["end"], R.F(node["ra"]))]
+    if min(ends) <= 0 and abs(min(ends)) > mp.mpf(2) ** 50:
+      ctx.count("ill_conditioned_skipped")
+      ctx.cls("exp_spline_shift_beyond_double_resolution")
+      return
   if node["kind"] == "exp_spline" and max(abs(co_ref[i]) * R.F(node["ra"]) ** i for i in range(6)) > mp.mpf("1e7"):
     # the polynomial inside exp() is a sum of terms > 1e7 that cancel: its double rounding error (> 1e-9) is
     # amplified by exp(); such end-potential data are outside "where both are well-conditioned"
